@@ -304,4 +304,10 @@ theorem withTether_ends (t : Tether ℝ) (e : Pt ℝ × Pt ℝ) (he : t.ends = s
   · simp only [Tether.withTether, he, Tether.new]
 
 
+/-- The invariant of every stack the code builds: positive step, ROI inside the raw pages and not empty, every visible
+    frame a page of the file(s). -/
+def Stack.Good (s : Stack) (H W : Nat) (pages : List Page) : Prop :=
+  0 < s.st ∧ s.roi.Within H W ∧ s.Paged pages
+
+
 end Verif.C07
